@@ -266,7 +266,8 @@ SPEC = dict(
                    "and the parsed fields are handed to the model); url.Parse for ids of URL-unreserved characters; the two closures of run.go "
                    "are modelled (package main cannot be linked into the harness) with their condition and URL literals regenerated by the "
                    "translator. IPNet.String equality in Set is modelled as equality of networkNumberAndMask.",
-        areas=[dict(name="cache", n_quick=700, n_thorough=12000, shards_thorough=8, oracle=_oracle_cache_c11, nontrivial=lambda c, i: "cc," in i or ",up=D:" in i, timeout=900),
+        areas=[dict(name="localaddr", n_quick=25, n_thorough=300, shards_thorough=2, oracle=oracle_pwire, timeout=600),
+               dict(name="cache", n_quick=700, n_thorough=12000, shards_thorough=8, oracle=_oracle_cache_c11, nontrivial=lambda c, i: "cc," in i or ",up=D:" in i, timeout=900),
                dict(name="prof", n_quick=80000, n_thorough=1600000, shards_thorough=8, oracle=oracle_prof,
                     nontrivial=lambda c, i: " get=- " not in i),
                dict(name="purl", n_quick=8000, n_thorough=160000, shards_thorough=8, oracle=oracle_purl)],
